@@ -289,11 +289,15 @@ def run(ctx):
     ctx.guarded('C10-D2', 'linalg.py:matmul', d2_complex_product, ctx, lin)
     ctx.guarded('C10-D3', 'linalg.py@blocks', d3_blocks, ctx, lin)
     ctx.guarded('C10-D4', 'linalg.py@naming', d4_naming, ctx, lin)
+    # the array_mode branch of derived_observable carries every matrix operation: per-element alignment and scale factor
+    from . import C01
+    ctx.guarded('C10-D4', 'obs.py:derived_observable@array_mode', C01.derived_alignment, ctx, ctx.repo.mod('obs'), 'C10-D4')
     ctx.guarded('C10-D5', 'linalg.py@jack', d5_jack, ctx, lin)
-    from .. import unusedparams
-    ctx.rule('C10-D6', 'every accepted option is read (no silently ignored parameter)')
+    from .. import unusedparams, leakedloop
+    ctx.rule('C10-D6', 'every accepted option is read (no silently ignored parameter); no loop variable read after its loop')
     for mn_ in ('linalg',):
         ctx.guarded('C10-D6', mn_ + '@parameters', unusedparams.check, ctx, 'C10-D6', ctx.repo.mod(mn_))
+        ctx.guarded('C10-D6', mn_ + '@loop-variables', leakedloop.check, ctx, 'C10-D6', ctx.repo.mod(mn_))
 
 
 
